@@ -200,4 +200,16 @@ func init() {
 	for _, id := range []string{"C02", "C04", "C09", "C10"} {
 		props[id].Harnesses = append(props[id].Harnesses, logout)
 	}
+	for _, id := range []string{"C01", "C02"} {
+		props[id].Harnesses = append(props[id].Harnesses, HarnessSpec{Name: "VH_C01_no_store", Replay: "native", Unwind: 400})
+	}
+	props["C08"].Harnesses = append(props["C08"].Harnesses, HarnessSpec{Name: "VH_C11_roundtrip", Replay: "native", Panics: true, Unwind: 80})
+	props["C14"].Harnesses = append(props["C14"].Harnesses, HarnessSpec{Name: "VH_C13_signing_key", Replay: "native"})
+	for _, id := range []string{"C17", "C18"} {
+		props[id].Harnesses = append(props[id].Harnesses, HarnessSpec{Name: "VH_C18_two_documents", Replay: "native", Unwind: 2000})
+	}
+	trust := HarnessSpec{Name: "VH_C02_trust_store", Replay: "native", Unwind: 400}
+	for _, id := range []string{"C01", "C02", "C04", "C10"} {
+		props[id].Harnesses = append(props[id].Harnesses, trust)
+	}
 }
